@@ -299,3 +299,57 @@ def dead_refusal_rule(rule, w):
                                "this refusal can never run: its path condition `%s` is contradictory, so the combination it was written for is accepted elsewhere"
                                % repr(p)[:120], "a reachable raise", repr(p)[:120])
     return n
+
+
+def stale_alias_rule(rule, w):
+    """Read-modify-write through two names: in `T[sl] = .. A[sl] ..` (same slice on both sides)
+    A must still denote the object T denotes.  When A was bound to T (`c = self._coeff[v]`) and T
+    has been re-bound since (`self._coeff[v] = <new matrix>`), the statement reads the old object
+    with the new object's index pattern."""
+    m = w.mods["modeling"]
+    n = 0
+    for q, fn in m.funcs.items():
+        for st in pf.stmts_of(fn):
+            if not (isinstance(st, ast.Assign) and len(st.targets) == 1 and isinstance(st.targets[0], ast.Subscript)):
+                continue
+            T = st.targets[0]
+            tbase, tsl = pf.norm_expr(T.value), pf.norm_expr(T.slice) if not isinstance(T.slice, ast.Slice) else ast.unparse(T.slice)
+            for sub in [x for x in ast.walk(st.value) if isinstance(x, ast.Subscript) and isinstance(x.value, ast.Name)]:
+                ssl = pf.norm_expr(sub.slice) if not isinstance(sub.slice, ast.Slice) else ast.unparse(sub.slice)
+                A = sub.value.id
+                if ssl != tsl or A == tbase or not isinstance(T.slice, ast.Slice):
+                    continue
+                # A's binding: the last `A = <expr>` before st in source order within fn
+                binds = [a for a in pf.stmts_of(fn) if isinstance(a, ast.Assign) and len(a.targets) == 1 and isinstance(a.targets[0], ast.Name)
+                         and a.targets[0].id == A and a.lineno < st.lineno]
+                if not binds or pf.norm_expr(binds[-1].value) != tbase:
+                    continue
+                n += 1
+                key = "modeling.%s:%s[%s] updated from %s[%s]" % (q, tbase, tsl, A, ssl)
+                # is T re-bound between the binding of A and st, on the path to st?  (same block chain, by position)
+                rebinds = [a for a in pf.stmts_of(fn) if isinstance(a, ast.Assign) and any(pf.norm_expr(t_) == tbase for t_ in a.targets)
+                           and binds[-1].lineno < a.lineno < st.lineno and _dominates(a, st)]
+                if rebinds:
+                    rule.violation(key, m.where(st, fn),
+                                   "`%s` was bound to `%s`, but `%s` has been re-bound to `%s` at line %d: this read-modify-write combines the old "
+                                   "object's entries `%s[%s]` with the new object's positions" % (A, tbase, tbase, pf.norm_expr(rebinds[-1].value)[:40],
+                                                                                                   rebinds[-1].lineno, A, ssl),
+                                   "%s[%s] = %s[%s] + .." % (tbase, tsl, tbase, tsl), pf.norm_expr(st)[:80])
+                else:
+                    rule.ok(key, m.where(st, fn), "%s still denotes %s" % (A, tbase))
+    return n
+
+
+def _dominates(a, b):
+    """statement a precedes b in a block that encloses b (so it runs before b on every path to b)"""
+    p = getattr(a, "_parent", None)
+    x = b
+    while x is not None:
+        if getattr(x, "_parent", None) is p:
+            for f in ("body", "orelse", "finalbody"):
+                blk = getattr(p, f, None)
+                if isinstance(blk, list) and any(y is a for y in blk) and any(y is x for y in blk):
+                    return True
+            return False
+        x = getattr(x, "_parent", None)
+    return False
